@@ -208,6 +208,11 @@ def pydanticField (acc : Acc) (st : CState) (name : Name) (ann : Ann) (t : Tenso
   | .error r => .reject r
   | .ok () => runEntries acc st [{ argIndex := 0, name, tensor := t, ann }]
 
+/-- class-definition time of a pydantic model (`__get_pydantic_core_schema__`): a numpy array type that declares scalar types
+    (`np.ndarray[Any, np.dtype[...]]`, `npt.NDArray[...]`) is refused when one of them is not accepted by the annotation's class -/
+def classDefRejects (acc : Acc) (cls : Nat) (declared : List DT) : Bool :=
+  declared.any (fun d => !acc cls d)
+
 /-- a whole validation: fold over the annotated, non-None fields -/
 def validateIncremental (acc : Acc) : CState → List (Name × Ann × Tensor) → Outcome CState
   | st, [] => .ok st
